@@ -262,11 +262,13 @@ def _standins(vc):
     if not hasattr(vc, "native_standins"):
         vc.native_standins = []
     vc.native_standins.append(dict(
-        name="fuse evaluated, re-parameterised and evaluated again",
+        name="histories of device objects and hand-entered relay settings",
         bound="one fuse with two fixed monotone characteristics (5 and 6 points): after create_characteristic with the second data set, 66 "
               "currents: trip iff current >= new start, melting time non-increasing, data points reproduced (history of one device object: the "
-              "deductive part treats one evaluation of a device whose characteristic is given)",
-        script="from replaylib.protection import fuse_reparameterised\nfuse_reparameterised()\n"))
+              "deductive part treats one evaluation of a device whose characteristic is given); a fuse evaluated, printed and evaluated again; DTOC / "
+              "IDTOC relays with a hand-entered I>> stage; three IDMT relays whose settings tables are ordered differently from the switches",
+        script="from replaylib import run_all\nfrom replaylib.protection import fuse_reparameterised, devices_more\n"
+               "run_all(fuse_reparameterised, devices_more)\n", timeout=600))
 
 
 def classify(ob, model):
